@@ -332,6 +332,9 @@ func (u *Universe) xmlChildren(parent *etree.Element, skip []string, keyless []s
 					if i >= len(kids) || kids[i].Tag != k {
 						problem("keys-not-first: entry of list %s does not start with its keys in key-statement order %v (children: %s)", cpath, ni.keys, tagsOf(kids))
 					}
+					if val, _, _, found := xmlOperation(ke); found {
+						problem("key-operation: key <%s> of an entry of list %s carries operation=%q (a key leaf cannot be deleted on its own)", k, cpath[:len(cpath)-1].String()+"/"+name, val)
+					}
 					if n := len(c.SelectElements(k)); n > 1 {
 						problem("key-duplicate: entry of list %s carries key <%s> %d times", cpath, k, n)
 					}
@@ -567,8 +570,20 @@ func c10Frags() (map[string]*Fragment, []string) {
 	fr["fu1"] = &Fragment{Name: "fu1", Leaves: []Leaf{leaf("10", "if", e1, "unit", u1, "vlan"), leaf("50", "if", e1, "unit", u5, "vlan")}}
 	fr["fu2"] = &Fragment{Name: "fu2", Leaves: []Leaf{leaf("11", "if", e1, "unit", u1, "vlan"), leaf("50", "if", e1, "unit", u5, "vlan")}}
 	fr["fu3"] = &Fragment{Name: "fu3", Leaves: []Leaf{leaf("10", "if", e1, "unit", u1, "vlan")}}
-	// mk4 -> mk5 changes only the non-key leaf of an existing two-key entry
-	return fr, []string{"fa", "fb", "fd", "fp", "fg", "fh", "fm", "mk4", "mk5", "ca1", "cpc", "fu1", "fu2", "fu3"}
+	// mk4 -> mk5 changes only the non-key leaf of an existing two-key entry; mk6 is another leaf of that entry
+	fr["mk6"] = &Fragment{Name: "mk6", Leaves: []Leaf{leaf("w1", "ok2", K{"k1", "x"}, K{"k2", "y"}, "w")}}
+	// cpv -> cpc keeps the presence container and withdraws its only child, a leaf with a default
+	fr["cpv"] = &Fragment{Name: "cpv", Leaves: []Leaf{leafEmpty("mode", "pc"), leaf("z", "mode", "pc", "pv")}}
+	return fr, []string{"fa", "fb", "fd", "fp", "fg", "fh", "fm", "mk4", "mk5", "mk6", "ca1", "cpc", "cpv", "fu1", "fu2", "fu3"}
+}
+
+// c10Initials: the core initial configurations plus one with an unmanaged leaf inside a two-key list entry (the entry
+// survives when the intents withdraw from it, its key leaves must not be deleted on their own).
+func c10Initials() []*Initial {
+	return append(CoreInitials(), &Initial{Name: "R3", Leaves: []Leaf{
+		leaf("unmanaged", "ok2", K{"k1", "x"}, K{"k2", "y"}, "w"),
+		leaf("u3", "ok3", K{"k1", "x"}, K{"k2", "y"}, K{"k3", "z"}, "v"),
+	}})
 }
 
 // c10GNMIPhases: the production gnmiTarget (target.New) connected to an in-process gNMI server, once per encoding.
@@ -591,7 +606,7 @@ func c10GNMIPhases() []*extraPhase {
 }
 
 func init() {
-	registerE1("C10", &e1Config{checker: C10Checker{}, depth: [2]int{2, 3}, orphan: true, renderAll: true, frags: c10Frags, noPrune: true,
+	registerE1("C10", &e1Config{checker: C10Checker{}, depth: [2]int{2, 3}, orphan: true, renderAll: true, frags: c10Frags, noPrune: true, initials: c10Initials,
 		// second phase: the lists whose keys are declared in non-alphabetical order, kept apart because their (recorded) defect
 		// contaminates every later transition
 		deep: &deepPhase{names: []string{"mk1", "mk2", "fa"}, depth: [2]int{2, 3}, initials: func() []*Initial { return CoreInitials()[:1] }},
